@@ -103,10 +103,13 @@ func cmdChild(args []string) int {
 		for _, d := range e.Directed() {
 			mark("directed " + d.ID)
 			e.RunDirected(res, *tier, *seed, d, false)
+			if res.Abort {
+				break
+			}
 		}
 	}
 	n := e.Cases(*tier)
-	for i := *shard; i < n; i += *nshards {
+	for i := *shard; i < n && !res.Abort; i += *nshards {
 		mark("case " + strconv.Itoa(i))
 		e.RunCase(res, *tier, *seed, i, false)
 		if len(res.Violations) > 200 {
